@@ -1,6 +1,17 @@
 use crate::{DbIndex, LuaType, get_real_type};
 
 pub fn remove_type(db: &DbIndex, source: LuaType, removed_type: LuaType) -> Option<LuaType> {
+    remove_type_inner(db, source, removed_type, &mut Vec::new())
+}
+
+/// `visiting` holds the union-valued sources currently being expanded, so that a
+/// self-referential alias (`---@alias A A|A?`) is not expanded forever.
+fn remove_type_inner(
+    db: &DbIndex,
+    source: LuaType,
+    removed_type: LuaType,
+    visiting: &mut Vec<LuaType>,
+) -> Option<LuaType> {
     if source == removed_type {
         match source {
             LuaType::IntegerConst(_) => return Some(LuaType::Integer),
@@ -134,17 +145,22 @@ pub fn remove_type(db: &DbIndex, source: LuaType, removed_type: LuaType) -> Opti
     }
 
     if let LuaType::Union(u) = &real_type {
+        if visiting.contains(&source) {
+            return Some(source);
+        }
+        visiting.push(source.clone());
         let types = u
             .into_vec()
             .iter()
-            .filter_map(|t| remove_type(db, t.clone(), removed_type.clone()))
+            .filter_map(|t| remove_type_inner(db, t.clone(), removed_type.clone(), visiting))
             .collect::<Vec<_>>();
+        visiting.pop();
         return Some(LuaType::from_vec(types));
     } else if let LuaType::Union(u) = &removed_type {
         let types = u
             .into_vec()
             .iter()
-            .filter_map(|t| remove_type(db, real_type.clone(), t.clone()))
+            .filter_map(|t| remove_type_inner(db, real_type.clone(), t.clone(), visiting))
             .collect::<Vec<_>>();
         return Some(LuaType::from_vec(types));
     }
